@@ -94,7 +94,7 @@ func (r tabixShim) End() int   { return r.end }
 func (i *Index) Add(r Record, c bgzf.Chunk, placed, mapped bool) error {
 	refName := r.RefName()
 	rid, ok := i.nameMap[refName]
-	if !ok {
+	if !ok && placed {
 		rid = len(i.refNames)
 		i.refNames = append(i.refNames, refName)
 		if i.nameMap == nil {
